@@ -15,17 +15,17 @@ static const char *PNAME[3] = { "tlcp", "tls12", "tls13" };
 typedef struct { uint8_t certs[6000]; size_t certslen; uint8_t cacerts[3000]; size_t cacertslen; SM2_KEY signkey, kenckey; } side_creds;
 /* key pool use: root CK[5]; server leaf CK[0], server enc CK[6]; client leaf CK[2], client enc CK[7]; intermediates CK[1], CK[3]; rogue root CK[9] */
 /* depth = number of certificates in the chain below the root: 1 (leaf only) .. 3 (leaf + 2 intermediates).  defect knobs applied to the leaf / first CA. */
-typedef struct { int expired, notyet, sigflip, untrusted_root, issuer_no_bc, issuer_ca_false, issuer2_no_bc, issuer2_ca_false, wrong_signkey, wrong_enckey, wrong_order, empty_chain, enc_forged /* TLCP encryption certificate signed by an unrelated key (its private key is held) */, enc_expired, issuer_forged /* the first CA certificate is signed by an unrelated key (the impostor made his own issuing CA naming the genuine upper CA) */, issuer2_no_pathlen /* the CA above it carries basicConstraints without pathLenConstraint */, lookalike /* with untrusted_root, depth 1: the impostor's certificate copies the SHAPE of the trust anchor - its serial number, validity, issuer name, total and TBS length (same first octets) - but carries the impostor's key and is signed by it */; } cred_defects;
+typedef struct { int chain_total /* > 0 (honest knob): the leaf certificate is padded so that the presented chain is exactly this many octets */; int notyet32 /* valid from now + 2^32 s - 1 h for a year: an alias of 'valid now' for 32-bit time arithmetic */; int expired, notyet, sigflip, untrusted_root, issuer_no_bc, issuer_ca_false, issuer2_no_bc, issuer2_ca_false, wrong_signkey, wrong_enckey, wrong_order, empty_chain, enc_forged /* TLCP encryption certificate signed by an unrelated key (its private key is held) */, enc_expired, issuer_forged /* the first CA certificate is signed by an unrelated key (the impostor made his own issuing CA naming the genuine upper CA) */, issuer2_no_pathlen /* the CA above it carries basicConstraints without pathLenConstraint */, lookalike /* with untrusted_root, depth 1: the impostor's certificate copies the SHAPE of the trust anchor - its serial number, validity, issuer name, total and TBS length (same first octets) - but carries the impostor's key and is signed by it */; } cred_defects;
 static int build_side(side_creds *sc, int proto, int is_client, int depth, const cred_defects *df) {
 	creds_init(); memset(sc, 0, sizeof *sc); cert_spec leaf, enc, ca[3], root; const SM2_KEY *leafk = is_client ? &CK[2] : &CK[0], *enck = is_client ? &CK[7] : &CK[6], *rootk = (df && df->untrusted_root) ? &CK[9] : &CK[5];
 	spec_leaf(&leaf, is_client ? "c" : "s", X509_KU_DIGITAL_SIGNATURE); spec_leaf(&enc, is_client ? "d" : "e", X509_KU_KEY_ENCIPHERMENT); spec_ca(&root, "R", -1);
-	if (df && df->expired) { leaf.nb = VENV_NOW - 400 * 86400; leaf.na = VENV_NOW - 86400; } if (df && df->notyet) { leaf.nb = VENV_NOW + 86400; leaf.na = VENV_NOW + 100 * 86400; } if (df && df->sigflip) leaf.sig = 1;
+	if (df && df->expired) { leaf.nb = VENV_NOW - 400 * 86400; leaf.na = VENV_NOW - 86400; } if (df && df->notyet) { leaf.nb = VENV_NOW + 86400; leaf.na = VENV_NOW + 100 * 86400; } if (df && df->notyet32) { leaf.nb = VENV_NOW + ((time_t)1 << 32) - 3600; leaf.na = leaf.nb + 365 * 86400; } if (df && df->sigflip) leaf.sig = 1;
 	int nca = depth - 1; const SM2_KEY *cak[3] = { &CK[1], &CK[3], &CK[4] }; char cacn[3][4] = { "A", "B", "C" };
 	for (int i = 0; i < nca; i++) { spec_ca(&ca[i], cacn[i], i); } if (df && nca >= 1) { if (df->issuer_no_bc) { ca[0].bc = 0; ca[0].pathlen = -1; ca[0].ku = -1; } if (df->issuer_ca_false) { ca[0].bc = 1; ca[0].pathlen = -1; } }
 	if (df && nca >= 2 && df->issuer2_no_pathlen) ca[1].pathlen = -1; if (df && nca >= 1 && df->issuer_forged) ca[0].sig = 2;
 	if (df && nca >= 2) { if (df->issuer2_no_bc) { ca[1].bc = 0; ca[1].pathlen = -1; ca[1].ku = -1; } if (df->issuer2_ca_false) { ca[1].bc = 1; ca[1].pathlen = -1; } }
 	size_t n; uint8_t *p = sc->certs; const SM2_KEY *issk = nca ? cak[0] : rootk; const char *isscn = nca ? cacn[0] : "R";
-	uint8_t tmp[4][1200]; size_t tl[4]; int nt = 0;
+	uint8_t tmp[4][2200]; size_t tl[4]; int nt = 0;
 	int root_done = 0;
 	if (df && df->lookalike) { n = 0; if (make_cert(&root, &CK[5], &CK[5], "R", sc->cacerts, &n) != 1) return -1; sc->cacertslen = n; root_done = 1; memcpy(leaf.serial, root.serial, root.serial_len); leaf.serial_len = root.serial_len; leaf.nb = root.nb; leaf.na = root.na; int ok = 0;
 		for (int cl = 1; cl <= 11 && !ok; cl++) for (int ue = 0; ue < 2 && !ok; ue++) for (int t = 0; t < 8 && !ok; t++) { memset(leaf.cn, 0, sizeof leaf.cn); memset(leaf.cn, is_client ? 'c' : 's', (size_t)cl); leaf.unknown_ext = ue; n = 0; if (make_cert(&leaf, leafk, issk, isscn, tmp[nt], &n) != 1) return -1; if (n == sc->cacertslen && !memcmp(tmp[nt], sc->cacerts, 8)) ok = 1; }
@@ -34,6 +34,7 @@ static int build_side(side_creds *sc, int proto, int is_client, int depth, const
 	int twoleaf = (proto == P_TLCP && !is_client); /* the TLCP server presents sign+enc certificates; a TLCP client chain is an ordinary chain */
 	uint8_t encc[1200]; size_t encl = 0; if (twoleaf) { if (df && df->enc_expired) { enc.nb = VENV_NOW - 400 * 86400; enc.na = VENV_NOW - 86400; } if (make_cert(&enc, enck, (df && df->enc_forged) ? &CK[10] : issk, isscn, encc, &encl) != 1) return -1; }
 	for (int i = 0; i < nca; i++) { const SM2_KEY *ik = i + 1 < nca ? cak[i + 1] : rootk; const char *icn = i + 1 < nca ? cacn[i + 1] : "R"; n = 0; if (make_cert(&ca[i], cak[i], ik, icn, tmp[nt], &n) != 1) return -1; tl[nt++] = n; }
+	if (df && df->chain_total > 0) { /* size the leaf: total = sum of the chain entries (+ the TLCP encryption certificate) */ int ok = 0; for (int it = 0; it < 24 && !ok; it++) { size_t tot = encl; for (int i = 0; i < nt; i++) tot += tl[i]; if ((int)tot == df->chain_total) { ok = 1; break; } long d = (long)df->chain_total - (long)tot; long np = (long)leaf.pad + d; if (leaf.pad == 0) np -= 14; if (np < 1) np = 1; if (np == leaf.pad) np += (d > 0 ? 1 : -1); leaf.pad = (int)np; n = 0; if (make_cert(&leaf, leafk, issk, isscn, tmp[0], &n) != 1) return -1; tl[0] = n; } if (!ok) return -1; }
 	if (df && df->wrong_order && nt >= 2) { uint8_t sw[1200]; size_t sl = tl[nt - 1]; memcpy(sw, tmp[nt - 1], sl); memcpy(tmp[nt - 1], tmp[0], tl[0]); tl[nt - 1] = tl[0]; memcpy(tmp[0], sw, sl); tl[0] = sl; }
 	if (!(df && df->empty_chain)) { memcpy(p, tmp[0], tl[0]); p += tl[0]; if (twoleaf) { memcpy(p, encc, encl); p += encl; } for (int i = 1; i < nt; i++) { memcpy(p, tmp[i], tl[i]); p += tl[i]; } }
 	sc->certslen = (size_t)(p - sc->certs);
